@@ -100,6 +100,11 @@ def value_for(a, rng):
     return one()
 
 
+def is_tag(x):
+    import pycomm3
+    return isinstance(x, pycomm3.Tag)   # (a Tag is a named tuple: "not a list / tuple" would be the wrong test)
+
+
 def values_match(ty, want, got):
     if isinstance(want, list):
         return isinstance(got, list) and len(want) == len(got) and all(values_match(ty, w, g) for w, g in zip(want, got))
@@ -268,6 +273,8 @@ def run(ctx):
                             tab.files[n] = (ty_, list(w))
                     elif st != "ok":
                         res.violation(f"refused-{op}-raises:{type(tg_).__name__}", f"{op}({text!r}): controller status {sts!r}; the call raised {tg_!r:.160} instead of returning a falsy Tag", wit)
+                    elif not is_tag(tg_):
+                        res.violation(f"result-shape:{op}", f"{op}({text!r}) with ONE address returned {tg_!r:.160} - a single Tag is documented", wit)
                     elif tg_ or not getattr(tg_, "error", None) or tg_.value is not None:
                         res.violation(f"refused-{op}-not-falsy", f"{op}({text!r}): controller answered status {sts!r}; result {tg_!r:.160}", wit)
                     elif len(dev.commands) > ncmd and forced is None:
@@ -279,6 +286,9 @@ def run(ctx):
                     res.ev()
                     if st != "ok":
                         res.violation(f"read-raises:{form}:{type(tg_).__name__}", f"read({text!r}) raised {tg_!r:.160}", wit)
+                        continue
+                    if not is_tag(tg_):
+                        res.violation("result-shape:read", f"read({text!r}) with ONE address returned {tg_!r:.160} - a single Tag is documented", wit)
                         continue
                     if not tg_:
                         res.violation(f"read-fails:{'elem255' if a['element'] == 255 else 'file255' if a['file'] == 255 else form}",
@@ -302,6 +312,9 @@ def run(ctx):
                 res.ev()
                 if st != "ok":
                     res.violation(f"write-raises:{form}:{type(tg_).__name__}", f"write({text!r}, {val!r:.60}) raised {tg_!r:.160}", wit)
+                    continue
+                if not is_tag(tg_):
+                    res.violation("result-shape:write", f"write(({text!r}, ...)) with ONE address returned {tg_!r:.160} - a single Tag is documented", wit)
                     continue
                 if not tg_:
                     res.violation(f"write-fails:{'elem255' if a['element'] == 255 else 'file255' if a['file'] == 255 else form}",
@@ -347,7 +360,7 @@ def run(ctx):
                 st, back = b.call("read", drv.read, text)
                 want = refslc.expected_read(tab, a)
                 res.ev()
-                if st != "ok" or not back or not values_match(a["type"], want, back.value):
+                if st != "ok" or not is_tag(back) or not back or not values_match(a["type"], want, back.value):
                     res.violation(f"read-back-differs:{form}", f"write({text!r}, {val!r:.60}) then read -> {back!r:.160}; table holds {want!r:.60}", wit)
                 exp_val = (val[: a["count"]] if isinstance(val, list) else val)
                 if a["bit"] is None and not values_match(a["type"], want, exp_val if not isinstance(exp_val, list) or len(exp_val) > 1 else exp_val[0]):
